@@ -8,7 +8,7 @@ From Verif.Gen Require Import Entities Tokenizer.
 From Verif.Model Require Import CharRef TokBase TokHand C02.
 From Verif.Spec Require Import CharRef TokSpec.
 From Verif.Proofs Require Import C02a C02b C02dict C08 C02sim C02simtac.
-From Verif.Proofs Require Import C02sim_amp C02sim_a C02sim_adn C02sim_b C02sim_bogus C02sim_c C02sim_d C02sim_e C02sim_f C02sim_g C02sim_h C02sim_i C02sim_j C02sim_mdo.
+From Verif.Proofs Require Import C02cdata C02sim_amp C02sim_a C02sim_adn C02sim_b C02sim_bogus C02sim_c C02sim_d C02sim_e C02sim_f C02sim_g C02sim_h C02sim_i C02sim_j C02sim_mdo.
 Import ListNotations.
 Local Open Scope N_scope.
 
@@ -138,5 +138,58 @@ Proof.
   destruct (refinement_no_cdata _ _ _ mf HR Hwk Hcov eq_refl Et) as (n' & sf & Hn & HRf).
   exists mf, n', sf. split; [reflexivity|]. split; [exact Hn|].
   split; [intros n'' sf' H'; exact (sp_run_det _ _ _ _ _ H' Hn)|].
+  destruct HRf as (Hst & Hi & _ & Ho & _). split; [rewrite Ho; apply flatr_rev|]. split; assumption.
+Qed.
+
+(* ---- CDATA sections included: everything but a U+0000 inside one ---- *)
+Definition covered_cdata (m : tk) : bool :=
+  match st m with
+  | cdataSectionState => negb (has_nul (fst (csplit (inp m))))
+  | cdataSectionBracketState | cdataSectionEndState => false       (* states html5lib does not have *)
+  | _ => true
+  end.
+Lemma sim_step_cdata m s : R m s -> wk m = true -> covered_cdata m = true -> simok s (step m).
+Proof.
+  intros HR Hwk Hcov. destruct (tstate_eqb (st m) cdataSectionState) eqn:E.
+  - assert (Hst : st m = cdataSectionState) by (destruct (st m); try discriminate E; reflexivity).
+    unfold step. rewrite Hst. apply sim_cdataSectionState; [exact HR|exact Hst|].
+    unfold covered_cdata in Hcov. rewrite Hst in Hcov. apply negb_true_iff in Hcov. exact Hcov.
+  - apply sim_step; [exact HR|exact Hwk|]. unfold covered_cdata in Hcov. unfold covered.
+    destruct (st m); try reflexivity; try discriminate Hcov; discriminate E.
+Qed.
+
+Fixpoint run_cov_cdata (fuel : nat) (k : tk) : option tk :=
+  match fuel with
+  | O => None
+  | S f => if covered_cdata k then let '(k', cont) := step k in if cont then run_cov_cdata f k' else Some k' else None
+  end.
+
+Theorem refinement_cdata : forall n m s mf,
+  R m s -> wk m = true -> run_cov_cdata n m = Some mf ->
+  run_loop n m = Some mf /\ exists n' sf, sp_run n' s = Some sf /\ R mf sf /\ wk mf = true.
+Proof.
+  induction n as [|n IH]; intros m s mf HR Hwk Hrun; [discriminate Hrun|].
+  cbn [run_cov_cdata run_loop] in *. destruct (covered_cdata m) eqn:Hcov; [|discriminate Hrun].
+  pose proof (sim_step_cdata m s HR Hwk Hcov) as Hsim. unfold simok in Hsim.
+  destruct (step m) as [m' c]. cbn [fst snd] in Hsim. destruct Hsim as (_ & Hwk' & _ & _ & Hsim).
+  destruct c.
+  - destruct Hsim as (j & s' & Hj & HR').
+    destruct (IH m' s' mf HR' Hwk' Hrun) as (Hl & n' & sf & Hn & HRf & Hwf).
+    split; [exact Hl|]. exists (j + n')%nat, sf. split; [|split; assumption]. rewrite (sp_iter_run j n' s s' Hj). exact Hn.
+  - destruct Hsim as (s' & Hs & HR'). inversion Hrun; subst mf. split; [reflexivity|].
+    exists 1%nat, s'. split; [|split; assumption]. cbn [sp_run]. rewrite Hs. reflexivity.
+Qed.
+
+Theorem tokenizer_refines_whatwg_cdata : forall s0 t cd i n mf,
+  start_state s0 = true ->
+  run_cov_cdata n (init_tk s0 CNone t cd i) = Some mf ->
+  run_loop n (init_tk s0 CNone t cd i) = Some mf /\
+  exists n' sf, sp_run n' (init_tk s0 CNone t cd i) = Some sf /\
+                (forall n'' sf', sp_run n'' (init_tk s0 CNone t cd i) = Some sf' -> sf' = sf) /\
+                rev (out sf) = flat (rev (out mf)) /\ inp sf = sinp mf /\ st sf = sst mf.
+Proof.
+  intros s0 t cd i n mf Hs Hrun. destruct (R_init s0 t cd i Hs) as [HR Hwk].
+  destruct (refinement_cdata n _ _ mf HR Hwk Hrun) as (Hl & n' & sf & Hn & HRf & _).
+  split; [exact Hl|]. exists n', sf. split; [exact Hn|]. split; [intros n'' sf' H'; exact (sp_run_det _ _ _ _ _ H' Hn)|].
   destruct HRf as (Hst & Hi & _ & Ho & _). split; [rewrite Ho; apply flatr_rev|]. split; assumption.
 Qed.
